@@ -118,7 +118,7 @@ fn cfg_sections(rng: &mut Rng, e: &Engine) -> Vec<CfgSection> {
         v.push(CfgSection::Fee { rate: *rng.pick(&[0u128, 1, 500, 10000, 50000, 100000, 100001, 300000]), treasury: rng.chance(1, 2) });
     }
     if mask & 2 != 0 {
-        v.push(CfgSection::BatchPeriod(*rng.pick(&[1u64, 60, 3600, 86_400, 30 * 86_400])));
+        v.push(CfgSection::BatchPeriod(*rng.pick(&[1u64, 60, 60, 3600, 3600, 86_400, 86_400, 30 * 86_400, 30 * 86_400, u64::MAX, u64::MAX / 2 + 7])));
     }
     if mask & 4 != 0 {
         let n = rng.below(4);
@@ -126,7 +126,7 @@ fn cfg_sections(rng: &mut Rng, e: &Engine) -> Vec<CfgSection> {
     }
     if mask & 8 != 0 {
         let n = rng.below(4);
-        v.push(CfgSection::Native { unbonding: *rng.pick(&[1u64, 120, 86_400, 21 * 86_400]), validators: (0..n).map(|_| rng.below(5) as u8).collect(), staker: rng.below(3) as u8, collector: rng.below(3) as u8 });
+        v.push(CfgSection::Native { unbonding: *rng.pick(&[1u64, 120, 120, 86_400, 86_400, 21 * 86_400, 21 * 86_400, u64::MAX, u64::MAX - 1_000_000]), validators: (0..n).map(|_| rng.below(5) as u8).collect(), staker: rng.below(3) as u8, collector: rng.below(3) as u8 });
     }
     if mask & 16 != 0 {
         v.push(CfgSection::Protocol { min_stake: *rng.pick(&[0u128, 1, 100, 1_000_000]), oracle: rng.chance(85, 100), channel: if rng.chance(1, 3) { rng.below(5000) } else { e.sw.channel } });
@@ -469,9 +469,40 @@ pub fn next_op(e: &Engine, rng: &mut Rng) -> Op {
         }
         22 => Op::MigrateMid { synthetic_replies: rng.below(4) as u8 },
         23 => {
-            let n = rng.range(1, 3);
             let honest = !(e.sw.profile == Profile::Ibc && rng.chance(1, 5));
-            Op::Admin(AdminOp::ForcedRecover { ids: (0..n).map(|_| if rng.chance(1, 12) { 1000 + rng.below(5) } else { rng.below(3) }).collect(), receiver: if rng.chance(1, 4) { Some(rng.below(8) as u8) } else { None }, honest })
+            // aim at the receiver that has the most refunded transfers waiting
+            let mut per: std::collections::BTreeMap<String, u64> = Default::default();
+            for p in open.iter().filter(|p| p.state == PState::Refunded && !e.m.recovered.contains(&p.id)) {
+                *per.entry(p.receiver.clone()).or_insert(0) += 1;
+            }
+            let best = per.iter().max_by_key(|(_, n)| **n).map(|(r, _)| r.clone());
+            let receiver = match best {
+                Some(r) if rng.chance(4, 5) => {
+                    if r == e.m.cfg.staker {
+                        None
+                    } else {
+                        (0..e.n_users() as u8).find(|i| e.a.users[*i as usize].1 == r).map(Some).unwrap_or(None)
+                    }
+                }
+                _ => {
+                    if rng.chance(1, 4) {
+                        Some(rng.below(8) as u8)
+                    } else {
+                        None
+                    }
+                }
+            };
+            let ids: Vec<u64> = match rng.below(8) {
+                0 => vec![0],
+                1 => vec![0, 1],
+                2 => vec![0, 1, 0],
+                3 => vec![1, 1],
+                4 => vec![0, 1, 2],
+                5 => vec![2, 0, 1, 0],
+                6 => vec![0, 1000 + rng.below(5)],
+                _ => (0..rng.range(1, 4)).map(|_| rng.below(4)).collect(),
+            };
+            Op::Admin(AdminOp::ForcedRecover { ids, receiver, honest })
         }
         _ => {
             if rng.chance(1, 2) {
